@@ -173,6 +173,14 @@ theorem accepted_wf (t : Trx) (n p : Int) (hn : ¬ n < 0) (hp : ¬ p ≤ 0) :
   simp only [DropWF, Patch.apply]
   omega
 
+/-- more generally: a freshly created transceiver satisfies `DropWF ∧ ThrNonneg`, and every
+assignment the custom handler (SETTA, FAKE_TOA, FAKE_RSSI, FAKE_CI, FAKE_DROP, FAKE_TRXC_DELAY) makes
+keeps it — these are the well-formedness hypotheses of the burst-path theorems (C02/C10/C18) -/
+theorem sim_params_wf (req : List Str) (p : Patch) (rc : Option Int) (t : Trx)
+    (h : ctrlCmdHandler req = .ok (some p, rc)) (hwf : DropWF t ∧ ThrNonneg t) :
+    DropWF (p.apply t) ∧ ThrNonneg (p.apply t) :=
+  ctrlCmdHandler_simWF req p rc t h hwf
+
 /-- `RFMUTE v` sets `rf_muted := (v > 0)` and answers 0 -/
 theorem rfmute_sets (w : World) (i : Nat) (t : Trx) (a : Str) (v : Int) (hi : w.trxs[i]? = some t)
     (ha : toInt a = .ok v) :
